@@ -35,6 +35,10 @@ INT_KEYS = [1, 2, -7, 10 ** 12]
 FLOAT_KEYS = [1.5, -0.25]
 TUPLE_KEYS = [(1, 2), ('a', 1), (1, (2, 3)), ((1,), ('k', 2))]
 BYTES_KEYS = [pickle.dumps((1, 2)), pickle.dumps(('a',), 0), pickle.dumps(((3,), {}), 2)]
+# source-text directory archives import K_<name>: besides identifier-like strings they take every key
+# whose directory name is importable and whose real value goes to an __args__.py input file
+# (ints, strings with '-', pickled keys that are stored under their md5)
+DIRSRC_INPUT_KEYS = [1, 2, -7, 10 ** 12, 'q-r', pickle.dumps((1, 2)), pickle.dumps(((3,), {}), 2)]
 
 # (a, b) pairs that a dict keeps apart; RISKY keys exercise file-name mapping
 RISKY_KEYS = {
@@ -81,7 +85,7 @@ def family(label):
 def key_domain(label):
     fam = family(label)
     if label == 'dir-src':
-        return [IDENT_KEYS]
+        return [IDENT_KEYS, DIRSRC_INPUT_KEYS]
     if fam == 'json':
         return [STR_KEYS]
     if fam == 'sql':
@@ -156,6 +160,10 @@ def generate(rng, prop, tier):
         'kseed': rng.below(1 << 30),
         'risky': risky_tags,
         'coarse_dirs': False,
+        # 'sparse': the complete contents are compared only every few steps and at the end, so that the
+        # harness's own reads between two operations do not hide state one operation leaves for the next
+        # (results and exceptions of every operation are still compared at every step)
+        'observe': rng.weighted([(7, 'full'), (3, 'sparse')]),
     }
     n = rng.randint(4, 30) if not rng.chance(0.1) else rng.randint(30, 70)
     table = C03_OPS if prop == 'C03' else C04_OPS
@@ -649,6 +657,7 @@ def execute(case, prop, ctx):
             _random.seed(case['kseed'])
             w = World(case, root)
             w.target = 0
+            sparse = case.get('observe') == 'sparse'
             for step, op in enumerate(case['ops']):
                 _random.seed(krng.getrandbits(32))
                 kind = op['op']
@@ -755,8 +764,11 @@ def execute(case, prop, ctx):
                     if exp[0] != 'ok':
                         bump(faults, 'failing-op-' + exp[0])
                 compare_result(op, exp, got, m_before)
-                for i in range(len(w.archs)):
-                    check_contents(w, i, 'after step %d %s' % (step, show_op(op)))
+                if not sparse or step % 6 == 5 or step == len(case['ops']) - 1:
+                    for i in range(len(w.archs)):
+                        check_contents(w, i, 'after step %d %s' % (step, show_op(op)))
+                else:
+                    bump(probes, 'sparse-step-without-full-read')
                 obs_log.append([kind, got[0], show(got[1]) if kind not in UNORDERED else _canon_list(got[1] or [])])
                 shape.append('%s:%s:%d' % (kind, got[0], len(m)))
                 if kind in ('set', 'update') and any(same_key(dec(op.get('k')), kk) for kk in m_before) \
@@ -799,6 +811,28 @@ def simplify(case):
         c = _copy.deepcopy(case)
         c['cached'] = False
         yield c
+    if case.get('observe') == 'sparse':
+        c = _copy.deepcopy(case)
+        c['observe'] = 'full'
+        yield c
+    src = case['backend']['label'] in ('file-src', 'dir-src')
+    if src:
+        # remove the "same-second rewrite" trigger if the violation does not need it: put every
+        # write into its own second (a violation that survives this is not the stale-.pyc finding)
+        ops, changed, fresh_second = [], False, False
+        for op in case['ops']:
+            if op['op'] == 'advance':
+                fresh_second = op.get('dt', 0) != 0
+            elif op['op'] in WRITES:
+                if not fresh_second:
+                    ops.append({'op': 'advance', 'dt': 1})
+                    changed = True
+                fresh_second = False
+            ops.append(op)
+        if changed:
+            c = _copy.deepcopy(case)
+            c['ops'] = ops
+            yield c
     plain = 'k1' if case['backend']['label'] == 'dir-src' else 'k'
     seen = []
     for op in case['ops']:
@@ -833,7 +867,7 @@ def simplify(case):
             c = _copy.deepcopy(case)
             c['ops'][i]['t'] = 0
             yield c
-        if op['op'] == 'advance' and op['dt'] not in (0,):
+        if op['op'] == 'advance' and op['dt'] not in (0,) and not src:
             c = _copy.deepcopy(case)
             c['ops'][i]['dt'] = 0
             yield c
